@@ -225,7 +225,14 @@ def oracle(case, R):
     dref, vref, aref, cnd = reference(S, freq, incrb, rfdo, direct_rb=False)
     ref_phys = (tr(dref), tr(vref), tr(aref))
     kw = dict(rb=rb_in, rf=rf_in, pre_eig=bool(case.get("pre_eig")))
-    tsu = ode.SolveUnc(M_in, B_in, K_in, **kw)
+    # the same object may be set up for time-domain use (step h: conjugate eigenpairs are trimmed and have to
+    # be restored for the frequency-domain solve) and may already have solved a transient
+    hstep = case.get("h")
+    tsu = ode.SolveUnc(M_in, B_in, K_in, **kw) if hstep is None else ode.SolveUnc(M_in, B_in, K_in, hstep, **kw)
+    R.label("h=None" if hstep is None else "h_given")
+    if hstep is not None and case.get("tsolve_first"):
+        tsu.tsolve(np.real(F_in[:, :1]) @ np.ones((1, 4)))
+        R.label("tsolve_first")
     su = tsu.fsolve(F_in, freq, incrb=incrb, rf_disp_only=rfdo)
     R.label("su_unc" if tsu.unc else "su_coupled")
     kap_su = kapPhi
@@ -421,6 +428,9 @@ def freq_cases(draw, form, psd=False):
             "cforce": draw(st.booleans()), "incrb": draw(st.sampled_from(LETTERS)),
             "rf_disp_only": draw(st.booleans()), "rb_given": draw(st.booleans()), "bvec": draw(st.booleans()),
             "kvec": draw(st.booleans()), "pre_eig": pre_eig, "cpl": draw(st.sampled_from([0.05, 0.3, 0.8]))}
+    if not hyst and not case["cmass"] and not psd and draw(st.booleans()):
+        case["h"] = draw(st.sampled_from([0.01, 0.001, 0.1]))
+        case["tsolve_first"] = draw(st.booleans())
     if not case["rb_given"]:
         # auto-detection: elastic k must be >= 0.005 (documented); all el/rf here have k >= m*(2 pi 0.3)^2 > 3 m
         pass
